@@ -152,6 +152,22 @@ def run(replay=None):
             asts.append(('event built through the API: %s [%r]' % (evobj, t), 'event', evobj))
             nev += 1
     rep.count('events_built_through_the_api', nev)
+    # quantifiers in positions that are not conditions: under a conversion function, as a member of a set, inside an index,
+    # inside a range bound, inside the domain of another quantifier (the traversal functions see them wherever they are)
+    from harness.drive import call_parser
+    QIN = ['int((exists y in ys: @y > 0)) > 0', 'flag in {(exists y in ys: @y > 0), True}', 'str((forall y in ys: @y > 0)) = "True"',
+           'float((exists y in ys: @y > 0)) + 1 > 0', 'bool((exists y in ys: @y > 0))', 'xs[int((exists y in ys: @y > 0))] > 0',
+           'x in [0 to int((exists y in ys: @y > 0))]', 'forall z in {(exists y in ys: @y > 0)}: @z', 'len({(exists y in ys: @y > 0), p}) > 0',
+           'forall z in xs[int((exists y in ys: @y > 0))]: @z > 0', 'max({int((exists y in ys: @y > @A.x))}) > 0 and (exists w in ws: @w.x > 0)',
+           'm.xs[int((forall v in vs: @v))].f > 0', '- int((exists y in ys: @y > 0)) < 0', 'abs(int((exists A in ys: @A > 0))) = 1',
+           '{(exists y in ys: @y > 0)} = {True}', 'x in ![int((exists y in ys: @y > 0)) to 9]!']
+    nq = 0
+    for t in QIN:
+        o, obj = call_parser('condition', t)
+        if o == 'ast':
+            asts.append((t, 'condition', obj))
+            nq += 1
+    rep.count('quantifiers_in_non_boolean_positions', nq)
     events, info = [], {}
     eid = 0
     slot_cov = {}
